@@ -91,7 +91,7 @@ class Ctx:
     def _prune_cache(self):
         try:
             ents = sorted((os.path.getmtime(os.path.join(CACHE, e)), e) for e in os.listdir(CACHE))
-            for _, e in ents[:-12]:
+            for _, e in ents[:-30]:
                 subprocess.run(['rm', '-rf', os.path.join(CACHE, e)])
         except OSError:
             pass
